@@ -26,13 +26,16 @@ struct Case {
     ragged: bool,
     partial_last: bool,
     comp_pad: usize,
+    /// version 3 header_length (0 = 112)
+    hlen: u32,
 }
 
 impl Case {
     fn describe(&self) -> String {
         format!(
-            "v{} cluster_bits {} refcount_order {} kinds {:?} refcount_last {} short_l1 {} backing {} params {} bs {} ragged_end {} partial_last_cluster {} comp_pad {}",
+            "v{} header_length {} cluster_bits {} refcount_order {} kinds {:?} refcount_last {} short_l1 {} backing {} params {} bs {} ragged_end {} partial_last_cluster {} comp_pad {}",
             self.version,
+            if self.version == 2 { 72 } else if self.hlen == 0 { 112 } else { self.hlen },
             self.cb,
             self.order,
             self.kinds,
@@ -56,6 +59,7 @@ fn build_case(c: &Case) -> (Vec<Built>, Vec<usize>) {
     let probes = vec![0usize, 1, l2e - 1, l2e, ncl - 1];
     let mut s = ImageSpec::new(c.cb, c.order, vsize);
     s.version = c.version;
+    s.header_length = if c.version >= 3 { c.hlen } else { 0 };
     s.kinds = vec![GKind::Unalloc; ncl];
     for (p, k) in probes.iter().zip(c.kinds.iter()) {
         s.kinds[*p] = k.clone();
@@ -259,7 +263,8 @@ fn cases(thorough: bool) -> Vec<Case> {
                                             continue;
                                         }
                                         let comp_pad = if rot % 2 == 0 { 100 } else { (1usize << cb) - 8 };
-                                        v.push(Case { version, cb, order, kinds: kinds.clone(), refcount_last, short_l1, backing, default_params, bs_bits, ragged, partial_last: rot % 2 == 1, comp_pad });
+                                        let hlen = [0u32, 104, 120][(rot + order as usize + cb as usize + refcount_last as usize) % 3];
+                                        v.push(Case { version, cb, order, kinds: kinds.clone(), refcount_last, short_l1, backing, default_params, bs_bits, ragged, partial_last: rot % 2 == 1, comp_pad, hlen });
                                     }
                                 }
                             }
@@ -278,7 +283,7 @@ fn cases(thorough: bool) -> Vec<Case> {
                     for b in ks.iter() {
                         for c in ks.iter() {
                             for backing in [0u8, 2] {
-                                v.push(Case { version, cb, order: 4, kinds: vec![a.clone(), b.clone(), c.clone(), GKind::Data, GKind::Compressed], refcount_last: false, short_l1: false, backing, default_params: backing == 0, bs_bits: 9, ragged: true, partial_last: true, comp_pad: (1usize << cb) - 40 });
+                                v.push(Case { version, cb, order: 4, kinds: vec![a.clone(), b.clone(), c.clone(), GKind::Data, GKind::Compressed], refcount_last: false, short_l1: false, backing, default_params: backing == 0, bs_bits: 9, ragged: true, partial_last: true, comp_pad: (1usize << cb) - 40, hlen: if backing == 2 { 104 } else { 0 } });
                             }
                         }
                     }
